@@ -46,6 +46,7 @@ NONTRIVIAL_FLOOR = {"quick": 30, "thorough": 1000}
 
 F26 = "C40/v09-bundle-complex-renames"
 SILENT_REV = "C40/v4-bundle-tampered-revision-record-installed-silently"
+SLASHID = "C40/v4-record-name-ambiguous-for-file-id-with-leading-slash"
 TZPARSE = "C40/merge-directive-negative-non-hour-timezone-misparsed"
 DIRMOVE = "C40/v09-write-fails-on-moved-directory-with-children"
 NULLBASE = "C40/v09-write-bundle-from-null-base-ValueError"
@@ -575,8 +576,30 @@ def _nontrivial(spec, rng):
     return None
 
 
+def _leading_slash_ids(spec):
+    return sorted({op[1] for r in spec["revs"] for op in r["ops"]
+                   if op[0] == "add" and op[1].startswith("/")})
+
+
 def run(case, env):
     cx = Ctx(case, env)
+    bad_ids = _leading_slash_ids(cx.spec)
+    if bad_ids:
+        # 'file/<rev>/' + '//<id>' decodes as revision '<rev>/' + file '<id>':
+        # every format 4 path is affected; only the bundle round trip is
+        # attempted and any failure is this (known) class
+        try:
+            check_bundles(cx)
+        except Expect as e:
+            if e.signature in _known():
+                raise
+            cx.note(SLASHID, [bad_ids, e.signature])
+        except Exception as e:  # noqa: BLE001 - reported under SLASHID
+            cx.note(SLASHID, [bad_ids, type(e).__name__, str(e)[:200]])
+        if cx.noted:
+            return violation(cx.noted[0][0], cx.noted[0][1],
+                             label="%s/leading-slash-file-id" % cx.fmt)
+        return ok("%s/leading-slash-file-id" % cx.fmt)
     check_bundles(cx)
     check_merge(cx)
     check_directives(cx)
@@ -595,6 +618,24 @@ def case_strategy(draw, tier):
     spec = draw(ch.spec_with_binary(
         n_min=4, n_max=8, merges=True, symlinks=True, execs=True, meta=True,
         odd_names=True, ops_max=4))
+    if draw(st.integers(0, 5)) == 0:
+        # file ids that collide with the '/'-separated record names of a
+        # format 4 bundle unless they are escaped correctly
+        fids = sorted({op[1] for r in spec["revs"] for op in r["ops"]
+                       if op[0] == "add"})
+        k = draw(st.integers(1, min(2, len(fids))))
+        chosen = draw(st.lists(st.sampled_from(fids), min_size=k, max_size=k,
+                               unique=True))
+        forms = ["%s/x", "a/%s", "%s/", "a//%s", "%s%%2Fx", "/%s", "r1"]
+        remap = {}
+        for j, f in enumerate(chosen):
+            form = draw(st.sampled_from(forms))
+            remap[f] = (form % f) if "%s" in form else form + "-%d" % j
+        for r in spec["revs"]:
+            for op in r["ops"]:
+                for i, v in enumerate(op):
+                    if isinstance(v, str) and v in remap and i in (1, 2):
+                        op[i] = remap[v]
     n = len(spec["revs"])
     ids = [r["id"] for r in spec["revs"]]
     pairs = []
